@@ -626,6 +626,10 @@ func (w *World) runCall(t *core.Task, o *CallObs) {
 		w.runRaw(t, o)
 		return
 	}
+	// The context is created in the same scheduler step as the call starts,
+	// so that time.Until(deadline) inside the library equals the planned
+	// duration exactly.
+	w.opGate(o, "begin")
 	ctx, cancel, cleanup := w.callCtx(o)
 	defer cleanup()
 	if p.CancelTask {
@@ -638,7 +642,6 @@ func (w *World) runCall(t *core.Task, o *CallObs) {
 	client := w.client(p)
 	switch p.Kind {
 	case KUnary:
-		w.opGate(o, "unary")
 		t.SetWhere(p.ID + " CallUnary")
 		var body []byte
 		if len(p.ReqMsgs) > 0 {
@@ -660,7 +663,6 @@ func (w *World) runCall(t *core.Task, o *CallObs) {
 		w.rec(o, false, r)
 		w.setFinal(o, err)
 	case KClient:
-		w.opGate(o, "open")
 		stream := client.CallClientStream(ctx)
 		stream.RequestHeader().Set(callHeader, p.ID)
 		merge(stream.RequestHeader(), p.ReqHeader)
@@ -692,7 +694,6 @@ func (w *World) runCall(t *core.Task, o *CallObs) {
 		w.rec(o, false, r)
 		w.setFinal(o, err)
 	case KServer:
-		w.opGate(o, "open")
 		t.SetWhere(p.ID + " CallServerStream")
 		var body []byte
 		if len(p.ReqMsgs) > 0 {
@@ -753,7 +754,6 @@ func (w *World) runCall(t *core.Task, o *CallObs) {
 		r.Err = stream.Close()
 		w.rec(o, false, r)
 	case KBidi:
-		w.opGate(o, "open")
 		stream := client.CallBidiStream(ctx)
 		stream.RequestHeader().Set(callHeader, p.ID)
 		merge(stream.RequestHeader(), p.ReqHeader)
